@@ -330,7 +330,21 @@ let ranges k c tag d =
     if fget fs "servers" = "." && pget c "csv" = None && pget c "ports" = None then
       pr "FAIL %d range at=%s field=servers value=none\n" k tag;
     if pget c "ndots" = None && geti "ndots" > int_of_z ndots_documented_max then
-      pr "FAIL %d range at=%s field=ndots value=%s documented-max=%d\n" k tag (fget fs "ndots") (int_of_z ndots_documented_max)
+      pr "FAIL %d range at=%s field=ndots value=%s documented-max=%d\n" k tag (fget fs "ndots") (int_of_z ndots_documented_max);
+    (* lookup order read from the system (not given by the application as ARES_OPT_LOOKUPS, which is
+       copied verbatim): the documented range is a string over 'b' (DNS) and 'f' (hosts file) naming
+       every source at most once - "lookup file bind file" must not yield "fbf" *)
+    (match pget c "lookups" with
+     | Some v when v <> "-" -> ()
+     | _ ->
+       let lk = fget fs "lookups" in
+       if lk <> "" && lk <> "." && lk <> "(null)" then begin
+         let raw = try unhex lk with _ -> "?" in
+         let ok_chars = (let r = ref true in String.iter (fun ch -> if ch <> 'b' && ch <> 'f' then r := false) raw; !r) in
+         let nodup = String.length raw <= 2 && not (String.length raw = 2 && raw.[0] = raw.[1]) in
+         if not (ok_chars && nodup) then
+           pr "FAIL %d range at=%s field=lookups value=%s (%s)\n" k tag lk (String.escaped raw)
+       end)
   end
 
 let aif_of impl k tag = match impl_line impl k tag with
